@@ -179,7 +179,7 @@ static void run_case (char *id, char *mode, char *engine, char *target, char *mi
   if (gen_p || lazy_p) {
     MIR_gen_init (ctx);
     MIR_gen_set_optimize_level (ctx, gen_p ? (unsigned) (engine[3] - '0') : 2);
-    if (gen_p && getenv ("C06_DUMP") != NULL && (dump_f = open_memstream (&dump, &dump_len)) != NULL) {
+    if ((gen_p || (lazy_p && !lazybb_p)) && getenv ("C06_DUMP") != NULL && (dump_f = open_memstream (&dump, &dump_len)) != NULL) {
       MIR_gen_set_debug_file (ctx, dump_f);
       MIR_gen_set_debug_level (ctx, 2);
     }
